@@ -83,6 +83,8 @@ def gen_refs(rng):
         "by_id": rng.random() < 0.5,
         "col": rng.choice([1, 2]),
         "two_members": rng.random() < 0.5,
+        # the file the READER scans may have its columns in another order: a reference names a column of G's data, not of the reader's
+        "reader_layout": rng.choice(["same", "same", "permuted"]),
     }
 
 
@@ -112,9 +114,24 @@ def gen_replay(rng):
     }
 
 
+def gen_replay_chain(rng):
+    rows = gen.gen_rows(rng, min_rec=3, max_rec=9, ncol=3, blank_p=0.1)
+    hdr = rows[0]
+    return {
+        "kind": "replay_chain",
+        "rows": rows,
+        "g_comp": rng.choice(["yes()", "not(line_number() == 2)", "not(empty(#1))"]),
+        "x": {"id": "x", "scan": "*", "comps": [filter_comp(rng, hdr, len(rows))]},
+        "y": {"id": "y", "scan": rng.choice(["*", "*", "1*"]), "comps": [filter_comp(rng, hdr, len(rows))], "modes": {"source-mode": "preceding"}},
+        "method": rng.choice(["collect_paths", "next_paths_collect"]),
+        "inst": rng.choice(["new", "reused"]),
+        "g_runs": rng.randint(1, 2),
+    }
+
+
 def generate(rng, i, tier):
-    kind = ["chain", "refs", "chain", "replay"][i % 4]
-    sc = {"chain": gen_chain, "refs": gen_refs, "replay": gen_replay}[kind](rng)
+    kind = ["chain", "refs", "chain", "replay", "replay_chain", "refs", "chain", "replay"][i % 8]
+    sc = {"chain": gen_chain, "refs": gen_refs, "replay": gen_replay, "replay_chain": gen_replay_chain}[kind](rng)
     sc["seed"] = rng.getrandbits(32)
     sc["policy"] = rng.choice([["collect", "print"], ["collect"], ["collect", "fail"]])
     return sc
@@ -160,6 +177,13 @@ def reductions(sc):
                 c = with_(sc)
                 c["ops"][j]["tick_s"] = 1
                 yield c
+    elif sc["kind"] == "replay_chain":
+        for rows in gen.rows_reductions(sc["rows"]):
+            yield with_(sc, rows=rows)
+        if sc["g_runs"] > 1:
+            yield with_(sc, g_runs=1)
+        if sc["method"] != "collect_paths":
+            yield with_(sc, method="collect_paths")
     else:
         for cand in drop_each(sc["runs"], 1):
             yield with_(sc, runs=cand)
@@ -198,6 +222,8 @@ def execute(sc):
             _chain(sc, out, w)
         elif sc["kind"] == "refs":
             _refs(sc, out, w)
+        elif sc["kind"] == "replay_chain":
+            _replay_chain(sc, out, w)
         else:
             _replay(sc, out, w)
     return out.done()
@@ -321,6 +347,15 @@ def _refs(sc, out, w):
         cs.paths_manager.add_named_paths(name="G", paths=[gen.render(m) for m in gms])
         reader = f"~id:r0~ $[*][ @a = $G.variables.v  @b = $G.variables.t.k  @n = $G.variables.n  @h = {ref_h}" + ("  @w = $G.variables.w  @n2 = $G.variables.n2" if two else "") + " ]"
         cs.paths_manager.add_named_paths(name="R", paths=[reader])
+    reader_name = f"f{sc['reader_file']}"
+    if sc.get("reader_layout") == "permuted":
+        src_rows = sc["files"][sc["reader_file"]]
+        perm_rows = [([r[2], r[0], r[1]] if len(r) >= 3 else list(reversed(r))) for r in src_rows]
+        w.write_csv("src/reader.csv", perm_rows)
+        with ops.quiet():
+            cs.file_manager.add_named_file(name="freader", path="src/reader.csv")
+        reader_name = "freader"
+        out.probe("reader scans a file whose columns are in another order")
     last = None
     for ri, run in enumerate(sc["runs"]):
         seams.SimClock.advance(seconds=run["tick_s"])
@@ -340,7 +375,7 @@ def _refs(sc, out, w):
         want_vars.update(ops.jsonable(cp2.variables))
     want_col = [f"{l[col]}".strip() for l in lines if len(l) > col and l[col] is not None]
     seams.SimClock.advance(seconds=1)
-    ops.run_group(cs, sc["reader_method"], "R", fname=f"f{sc['reader_file']}")
+    ops.run_group(cs, sc["reader_method"], "R", fname=reader_name)
     out.runs += 1
     rv = ops.jsonable(ops.results_of(cs, "R")[0].csvpath.variables)
     errs = ops.norm_errors(ops.results_of(cs, "R")[0].errors)
@@ -360,6 +395,7 @@ def _refs(sc, out, w):
     out.nontrivial = True
     out.probe("reference after the group ran more than once", len(sc["runs"]) > 1)
     out.probe("reference into a group of two members", two)
+    out.probe("reader scans a file whose columns are in another order", False)
     out.log(rv, want_vars, want_col, len(out.violations))
 
 
@@ -434,6 +470,74 @@ def _replay(sc, out, w):
     out.probe("results reference after more than one run", g_runs > 1 and replays > 0)
     out.probe("same reference replayed again after the group ran again", replays > 1)
     out.log(hist, replays, len(out.violations))
+
+
+def _replay_chain(sc, out, w):
+    """G = [a] runs; then K = [x, y(source-mode: preceding)] runs with a results reference as its file name:
+    x replays a's data.csv, y reads what x collected."""
+    w.write_csv("src/f.csv", sc["rows"])
+    cs = ops.new_csvpaths()
+    with ops.quiet():
+        cs.file_manager.add_named_file(name="f", path="src/f.csv")
+        cs.paths_manager.add_named_paths(name="G", paths=[f"~id:a~ $[*][ {sc['g_comp']} ]"])
+        cs.paths_manager.add_named_paths(name="K", paths=[gen.render(sc["x"]), gen.render(sc["y"])])
+    last_dir = None
+    for _ in range(sc["g_runs"]):
+        seams.SimClock.advance(seconds=3)
+        ops.run_group(cs, "collect_paths", "G", fname="f")
+        out.runs += 1
+        last_dir = ops.results_of(cs, "G")[0].run_dir
+    data_path = os.path.join(last_dir, "a", "data.csv")
+    if not os.path.isfile(data_path):
+        out.sig = ["replay_chain", "no data"]
+        return
+    a_lines = D.read_csv(data_path)
+    # reference executor
+    _write_default_csv(os.path.join(w.root, "src/stage_x.csv"), a_lines)
+    cpx, _, lx = ops.standalone(gen.render({k: v for k, v in sc["x"].items()}, "src/stage_x.csv"))
+    want_x = _lines_of(lx)
+    out.runs += 1
+    want_y = None
+    if want_x:
+        _write_default_csv(os.path.join(w.root, "src/stage_y.csv"), want_x)
+        cpy, _, ly = ops.standalone(gen.render({k: v for k, v in sc["y"].items() if k != "modes"}, "src/stage_y.csv"))
+        want_y = _lines_of(ly)
+        out.runs += 1
+    seams.SimClock.advance(seconds=3)
+    if sc["inst"] == "new":
+        cs = ops.new_csvpaths()
+        out.fault("restart")
+    ref = f"$G.results.{os.path.basename(last_dir)[:4]}:last.a"
+    where = f"G ran {sc['g_runs']} time(s); K=[{gen.render(sc['x'])!r}, {gen.render(sc['y'])!r}] run by {sc['method']} with filename {ref!r}"
+    try:
+        ops.run_group(cs, sc["method"], "K", fname=ref)
+    except Exception as e:  # noqa: BLE001
+        out.v("chain_member_raised", f"{where}: raised {ops.exc_sig(e)}", predecessor_collected_nothing=not want_x, exc=type(e).__name__)
+        out.sig = ["replay_chain", "raised"]
+        out.nontrivial = True
+        return
+    out.runs += 1
+    rs = ops.results_of(cs, "K")
+    got_x = ops.result_lines(rs[0]) if rs else None
+    if got_x != want_x:
+        out.v("replay_lines", f"{where}: member x collected {got_x!r:.300}; replaying {data_path} through x gives {want_x!r:.300}", nth_replay=1)
+    if want_y is not None and len(rs) > 1:
+        got_y = ops.result_lines(rs[1])
+        if got_y != want_y:
+            out.v("chain_not_composition", f"{where}: member y (reads x/data.csv) collected {got_y!r:.300}, the stage run on x's lines gives {want_y!r:.300}", preceding=True, member=1)
+        try:
+            mm = D.read_json(os.path.join(rs[1].run_dir, "y", "manifest.json"))
+            want_file = os.path.join(rs[1].run_dir, "x", "data.csv")
+            if mm.get("actual_data_file") != want_file:
+                out.v("actual_data_file", f"{where}: member y manifest actual_data_file={mm.get('actual_data_file')!r}, its declared input is {want_file!r}", preceding=True)
+        except D.ReadError as e:
+            out.v("member_manifest_unreadable", f"{where}: {e}")
+        out.fault("stage_reads_predecessor")
+    out.fault("reference_resolved")
+    out.sig = ["replay_chain", sc["g_runs"], sc["method"], sc["inst"], len(want_x), None if want_y is None else len(want_y)]
+    out.nontrivial = True
+    out.probe("results reference as the file of a chain with a preceding member", True)
+    out.log(want_x, want_y, len(out.violations))
 
 
 def rng_free_second(sc):
